@@ -17,8 +17,8 @@ ACT = "smpl_extract/actions.py"
 
 
 # ------------------------------------------------------------------------ N1
-def _is_routines_iter(node):
-    t = norm(node)
+def _is_routines_iter(node, fn=None):
+    t = norm(node) if fn is None else canon_expr(fn, node)
     return t in ("self._routines.values()", "getattr(self, '_routines', {}).values()", "(getattr(self, '_routines', None) or {}).values()")
 
 
@@ -44,7 +44,7 @@ def _routine_loop(fn, ctx=None):
                             if thr and rets and all(norm(r.value) == hp[1] for r in rets):
                                 return n, n.targets[0].id
     for n in own_nodes(fn):
-        if isinstance(n, ast.For) and _is_routines_iter(n.iter) and isinstance(n.target, ast.Name):
+        if isinstance(n, ast.For) and (_is_routines_iter(n.iter) or _is_routines_iter(n.iter, fn)) and isinstance(n.target, ast.Name):
             r = n.target.id
             for st in n.body:
                 if isinstance(st, ast.Assign) and len(st.targets) == 1 and isinstance(st.targets[0], ast.Name) and isinstance(st.value, ast.Call) \
@@ -325,6 +325,14 @@ SAFE_EXPORT = frozenset([W, SP, DASH, DOT, HASH])
 def _regex_of(ctx, fn, attr_expr):
     """pattern/flags of a class-level `re.compile(...)` referenced as self.<NAME>"""
     d = dotted(attr_expr)
+    if d and d.isidentifier() and getattr(fn, "_module", None) is not None:
+        # a module-level compiled pattern
+        from ..core.consts import RegexVal, NotConst
+        try:
+            rv = ctx.folder.ev(attr_expr, fn._module)
+        except NotConst:
+            rv = None
+        return (rv.pattern, rv.flags, attr_expr) if isinstance(rv, RegexVal) else None
     if not d or not d.startswith("self."):
         return None
     cls = enclosing_class(fn)
@@ -402,6 +410,48 @@ class StrInterp:
                 return None
         if isinstance(node, ast.Call) and isinstance(node.func, ast.Name) and node.func.id == "str":
             return AStr((W, DASH), (W, DASH), (W,), False)  # str(int)
+        if isinstance(node, ast.BinOp) and isinstance(node.op, ast.Mod) and isinstance(node.left, ast.Constant) and isinstance(node.left.value, str):
+            # "..%s..%d.." % (a, b)  /  "..%s.." % a : the literal pieces with the values rendered by str() in between
+            import re as _re2
+            pieces = _re2.split(r"(%[sd%])", node.left.value)
+            if any("%" in pc and pc not in ("%s", "%d", "%%") for pc in pieces):
+                return None
+            args = list(node.right.elts) if isinstance(node.right, ast.Tuple) else [node.right]
+            if sum(1 for pc in pieces if pc in ("%s", "%d")) != len(args):
+                return None
+            res = AStr.const("")
+            for pc in pieces:
+                if pc in ("%s", "%d"):
+                    a_ = args.pop(0)
+                    part = self.ev(a_)
+                    if part is None and isinstance(a_, ast.Name) and self._is_int_param(a_.id):
+                        part = AStr((W, DASH), (W, DASH), (W,), False)
+                    if part is None:
+                        return None
+                    res = res.concat(part)
+                elif pc:
+                    res = res.concat(AStr.const("%" if pc == "%%" else pc))
+            return res
+        if isinstance(node, ast.Call) and isinstance(node.func, ast.Attribute) and node.func.attr == "format" and isinstance(node.func.value, ast.Constant) \
+                and isinstance(node.func.value.value, str) and not node.keywords:
+            import re as _re2
+            pieces = _re2.split(r"(\{\})", node.func.value.value)
+            if any(("{" in pc or "}" in pc) and pc != "{}" for pc in pieces) or sum(1 for pc in pieces if pc == "{}") != len(node.args):
+                return None
+            args = list(node.args)
+            res = AStr.const("")
+            for pc in pieces:
+                if pc == "{}":
+                    a_ = args.pop(0)
+                    part = self.ev(a_)
+                    if part is None and isinstance(a_, ast.Name) and self._is_int_param(a_.id):
+                        part = AStr((W, DASH), (W, DASH), (W,), False)
+                    if part is None:
+                        return None
+                    res = res.concat(part)
+                elif pc:
+                    res = res.concat(AStr.const(pc))
+            return res
         if isinstance(node, ast.JoinedStr):
             res = AStr.const("")
             for v in node.values:
@@ -586,6 +636,7 @@ def _interp_path(ctx, fn, p, inputs, flags):
                 continue
             if isinstance(v, (ast.List, ast.Tuple)):
                 si.vars["list:" + t] = v
+                si.vars["vals:" + t] = [si.ev(e) for e in v.elts]
                 # element snapshot: evaluate now and store as constants is not needed (locals are not reassigned before the join)
                 continue
             r = si.ev(v)
@@ -598,6 +649,17 @@ def _interp_path(ctx, fn, p, inputs, flags):
             for i_, t_ in enumerate(st.targets[0].elts):
                 if isinstance(t_, ast.Name):
                     si.vars[t_.id] = si.group(m_, i_ + 1)
+        elif s.kind == "stmt" and isinstance(st, ast.Assign) and len(st.targets) == 1 and isinstance(st.targets[0], (ast.Tuple, ast.List)) \
+                and all(isinstance(t_, ast.Name) for t_ in st.targets[0].elts) \
+                and (isinstance(st.value, (ast.Tuple, ast.List)) or (isinstance(st.value, ast.Name) and isinstance(si.vars.get("vals:" + st.value.id), list))):
+            # a, b = (x, y)   /   a, b = pair   (pair a tuple display assigned earlier on the path)
+            vals_ = [si.ev(e) for e in st.value.elts] if isinstance(st.value, (ast.Tuple, ast.List)) else si.vars["vals:" + st.value.id]
+            if len(vals_) == len(st.targets[0].elts):
+                for t_, v_ in zip(st.targets[0].elts, vals_):
+                    si.vars[t_.id] = v_
+            else:
+                for t_ in st.targets[0].elts:
+                    si.vars[t_.id] = None
         elif s.kind == "test" and s.label in ("true", "false"):
             _refine(ctx, fn, si, st.test, s.label == "true", flags)
     ret = None
@@ -1078,6 +1140,11 @@ def rule_N5(ctx):
     mo = ctx.fn(ST, "ExportManager.make_output_path", "N5")
     rc = return_canons(mo)
     ok = rc == [f"'/'.join({mo.args.args[1].arg}.export_path())"]
+    if not ok:
+        from .util import return_keys as _rk
+        rk_ = _rk(ctx, mo, "N5")
+        ok = rk_ == {f"('/').join({mo.args.args[1].arg}.export_path())"}
+        rc = sorted(str(x) for x in rk_)
     ctx.ob("N5", mo, "inner output path = '/'.join(sample.export_path())", ok, f"{rc}", inst="make_output_path")
     es = ctx.fn(ST, "ExportManager.export_samples", "N5")
     ew = [c for c in own_nodes(es) if isinstance(c, ast.Call) and norm(c.func) == "export_wav"]
